@@ -65,3 +65,6 @@ addfile("F35","C11","fixed","data-race",
     commit="a file shared by several goroutines no longer has a data race")
 add("F36","C08","fixed","read-content-not-signed","the size field of the (unsigned) outer tar header of a content record set to 0 with the tar checksum recomputed, pgp encryption: the PGP decryptor fails with a bare io.EOF, File.Read's restore goroutine handed that to the pipe with CloseWithError(io.EOF) = regular end of stream: the reader got an empty file without error instead of the signed content",
     ops=[{"k":"mkdir","p":"/d","m":0o755},{"k":"writefile","p":"/d/f","d":D(1,1)}], cfg_=cfg(enc="pgp",sig="minisign"), params={"enumerate":0,"a0":3,"a1":0,"a2":0}, sparams={"alt":"outer-size"}, commit="a restore that fails with io.EOF is not a clean end of file")
+addfile("F37","C14","fixed","io-contract:h.readat",
+    "Read, ReadAt, Write, WriteAt and WriteString returned the count -1 together with every error (permission, is-a-directory, invalid offset, failed restore): io.Reader/io.Writer require 0 <= n <= len(p); io.ReadAll, bytes.Buffer.ReadFrom (afero.ReadFile) and bufio panic on a negative count, so a failed read crashed standard consumers instead of handing them the error. The harness had tolerated n=-1 until a sub-agent's demonstration tripped over the panic",
+    commit="report a count of 0 together with an error", also=["C02","C06"])
